@@ -50,6 +50,14 @@ def run(chk):
     # ---- R02.10: a loop index narrower than its bound wraps on finer grids: interface / surface rows are then assembled from interior slices
     from .common import index_width_lint
     index_width_lint(chk, repo, 'R02.10', ['TidalPy/RadialSolver/**/*.pyx', 'TidalPy/utilities/dimensions/*.pyx'])
+    from .common import unsigned_negation_lint
+    unsigned_negation_lint(chk, repo, 'R02.10', ['TidalPy/RadialSolver/**/*.pyx', 'TidalPy/utilities/dimensions/*.pyx'])
+    # ---- R02.11: the solution is observed through `.result` and `solution['tidal']`: the readers hand back, for every requested type, the rows of that type (C03's reader rule)
+    from . import c03
+    from .common import RuleAlias
+    al11 = RuleAlias(chk, 'R02.11', lambda rule, inst: rule == 'R03.3' and inst.startswith('reader'))
+    c03.layout(al11, repo, d, make_eq(al11, d))
+    chk.floor('R02.11', 1)
     if not any(not o.ok for o in chk.obls):
         chk.floor('R02.9', 6)
     chk.floor('R02.1', 6); chk.floor('R02.2', 17); chk.floor('R02.3', 16); chk.floor('R02.4', 40)
